@@ -352,9 +352,13 @@ def w_geometry(ctx, rng, i):
     d = 2 + (i // 3) % 2
     kind = KINDS[(i // 6) % 4]
     m = make_mesh(rng, cls, d, kind)
+    if rng.random() < 0.5 and m.points.dtype == np.float64:
+        # any overall size: millimetre-scale scans, unit-normalised shapes, kilometre-scale terrain
+        m.points = m.points * 10.0 ** rng.uniform(-5, 4)
     R = gen.rotation_matrix(rng, d)
-    tvec = rng.uniform(-20, 20, d)
-    s = float(rng.uniform(0.2, 5.0))
+    size = float(np.abs(m.points).max())
+    tvec = rng.uniform(-2, 2, d) * size
+    s = float(10.0 ** rng.uniform(-3, 3)) if rng.random() < 0.3 else float(rng.uniform(0.2, 5.0))
     rigid = Rotation(R).compose_before(Translation(tvec))
     if rng.random() < 0.5:   # history: queries answered before the mesh is transformed
         m.tri_areas(); m.edge_lengths(); m.boundary_tri_index()
